@@ -141,6 +141,30 @@ def run_sequence(b, phys, laws=False):
                                         ("reset.energy_delivered", ev.energy_delivered, 0)):
                     if got != want:
                         return _mis(name, n, op, want, got, phys), nd
+            elif op["op"] == "resetto":
+                # Battery.reset(c) directly and on the EV's battery (after EV.reset(), which clears the EV's counter)
+                c = m.kwh(op["c"])
+                A.reset(c)
+                ev.reset()
+                B.reset(c)
+                agree = True
+                for name, got, want in (("reset(c).charge", A._current_charge, c), ("reset(c).power", A.current_charging_power, 0),
+                                        ("reset(c).ev_battery_charge", B._current_charge, c),
+                                        ("reset(c).energy_delivered", ev.energy_delivered, 0)):
+                    if got != want:
+                        return _mis(name, n, op, want, got, phys), nd
+            elif op["op"] == "resetbad":
+                c = m.kwh(op["c"])
+                before = (A._current_charge, A.current_charging_power, B._current_charge, ev.energy_delivered)
+                for which, bt in (("direct", A), ("ev", B)):
+                    try:
+                        bt.reset(c)
+                        return _mis("reset(c>capacity).accepted", n, op, "ValueError", "accepted (%s)" % which, phys), nd
+                    except ValueError:
+                        pass
+                after = (A._current_charge, A.current_charging_power, B._current_charge, ev.energy_delivered)
+                if before != after:
+                    return _mis("reset(c>capacity).changed-state", n, op, list(before), list(after), phys), nd
             else:
                 pilot, period, z = m.pilot(op["p"]), m.period(op["d"]), m.draw(op["z"])
                 with patch("numpy.random.normal", return_value=z):
@@ -223,7 +247,7 @@ def probe_state(m, A, n, op, phys):
 
 def sim_eligible(b):
     ch = [o for o in b["ops"] if o["op"] == "charge"]
-    return (len(ch) >= 1 and all(o["op"] != "reset" for o in b["ops"]) and len({o["d"] for o in ch}) == 1
+    return (len(ch) >= 1 and all(not o["op"].startswith("reset") for o in b["ops"]) and len({o["d"] for o in ch}) == 1
             and all(o["dec"] for o in ch))
 
 
@@ -297,7 +321,7 @@ def replay_laws(case):
 def nontrivial(b):
     """The model (not the pilot) limited a call, or noise took effect, or the sequence has a reset."""
     for o in b["ops"]:
-        if o["op"] == "reset":
+        if o["op"].startswith("reset"):
             return True
         if o["op"] == "charge" and o["p"] > 0 and o["eLo"] * 2 < o["p"] * o["d"]:
             return True
@@ -361,6 +385,10 @@ def _replay_all(rep, prop, bhvs, seed, nphys, laws, sim_every, procs=1):
         if found is not None:
             d, ph1 = found
             b = seen[k]
+            # "reset restores the initial state" is C14's clause; C03 states the bounds of charge()
+            if prop == "C03" and d["field"].startswith("reset"):
+                rep.foreign_divergence("C14", {"mismatch": d, "bhv": b})
+                continue
             key = "%s:%s:%s" % (prop, tag_of(b["bat"]), d["field"])
             rep.violation(key, json.dumps(d, default=repr)[:700], {"kind": "case", "module": "props_battery", "fn": fn,
                                                                   "case": {"bhv": b, "phys": ph1, "sim": bool(sim_run)}, "mismatch": d})
@@ -483,7 +511,7 @@ def _trace_binding(rep, prop, seed, ntraces):
 
 # ----------------------------------------------------------------------------- the checks
 _BUDGET = int(os.environ.get("VERIF_WORKERS", "0")) or min(16, os.cpu_count() or 1)
-ACTS = ["DoCharge", "Reset", "Finish"]
+ACTS = ["DoCharge", "Reset", "ResetTo", "ResetRefused", "Finish"]
 
 
 def _tlc_jobs(rep, jobs):
